@@ -320,7 +320,12 @@ mod ct {
             return match &c.get_content(ctx).value {
                 ConstantValue::Uint(n) => format!("fold {:x}", n),
                 ConstantValue::Bool(b) => format!("fold {:x}", *b as u8),
-                ConstantValue::U256(v) | ConstantValue::B256(v) => format!("fold {}", bytes_hex_trim(&v.to_be_bytes())),
+                // LowerHex, not `to_be_bytes` (which asserts 32 bytes): an out-of-range folded value must be reported
+                ConstantValue::U256(v) | ConstantValue::B256(v) => {
+                    let h = format!("{v:x}");
+                    let t = h.trim_start_matches('0');
+                    format!("fold {}", if t.is_empty() { "0" } else { t })
+                }
                 other => format!("cterr const:{}", format!("{other:?}").replace(' ', "_")),
             };
         }
@@ -395,7 +400,8 @@ mod ct {
         for line in stdin.lock().lines() {
             let Ok(line) = line else { break };
             let toks: Vec<&str> = line.split_whitespace().collect();
-            let res = guarded(|| eval(&toks)).unwrap_or_else(|| "cterr rustpanic".into());
+            // a Rust panic inside the pass / the compiler is a crash of the compile-time evaluator
+            let res = guarded(|| eval(&toks)).unwrap_or_else(|| "crash".into());
             let mut o = stdout.lock();
             // marker: the pass manager may print to stdout (e.g. the module, on a verification error)
             writeln!(o, "\n@@ {}", res).unwrap();
